@@ -383,12 +383,35 @@ func (ex *Exec) conv(fr *frame, instr ssa.Instruction, tdst, tsrc types.Type, x 
 			return strFromTerms(bs)
 		}
 		// []rune
+		allConst := true
+		for _, cl := range cells {
+			if t, ok := cl.(*sym.Term); !ok || !t.IsConst() {
+				allConst = false
+			}
+		}
+		if !allConst {
+			// symbolic runes: the real utf8.AppendRune decides the encoding
+			pkg := ex.prog.ImportedPackage("unicode/utf8")
+			if pkg == nil {
+				ex.unsupported("string([]rune) with symbolic runes needs unicode/utf8 in the program")
+			}
+			fn := pkg.Func("AppendRune")
+			var bs []*sym.Term
+			for _, cl := range cells {
+				t, ok := cl.(*sym.Term)
+				if !ok {
+					ex.badCell(cl, "string([]rune)")
+				}
+				out := ex.callSSA(fr, fn, []Value{[]Value(nil), t}, nil, instr).([]Value)
+				for _, b := range out {
+					bs = append(bs, b.(*sym.Term))
+				}
+			}
+			return strFromTerms(bs)
+		}
 		var buf []byte
 		for _, cl := range cells {
-			t, ok := cl.(*sym.Term)
-			if !ok || !t.IsConst() {
-				ex.unsupported("string([]rune) with symbolic runes")
-			}
+			t := cl.(*sym.Term)
 			buf = utf8.AppendRune(buf, rune(int32(t.Val)))
 		}
 		return Str{S: string(buf)}
